@@ -51,6 +51,11 @@ def edge_gen(t, cond, label):
     op = c["op"]
     l, r = c["l"], c["r"]
     truth = (label == "T") != neg
+    # `++pos == size`: the comparison sees the incremented position (the increment itself is an element of the block
+    # and has already killed the old fact)
+    ls_ = ex.strip(l)
+    if ls_ is not None and ls_.get("k") == "un" and ls_["op"] == "pre++":
+        l = ls_["e"]
     if t.is_pos(l) and t.is_size(r):
         pass
     elif t.is_size(l) and t.is_pos(r):
